@@ -239,6 +239,7 @@ type Bounds struct {
 	depth int
 	Trace func(string)
 	size  *sizeState
+	taint *taintState
 
 	globalMemo map[bndGlobalKey]AV
 
@@ -332,15 +333,29 @@ func (e *Bounds) eval(v ssa.Value, at ssa.Instruction, fr *frame, k Kind) AV {
 			if sn := e.phiSerial[phiKey{ph, fr}]; sn < e.depMin {
 				e.depMin = sn
 			}
+			if at != nil && !a.Bot {
+				k2 := busyKey{v, blk, fr, k + 100}
+				if !e.busy[k2] {
+					e.busy[k2] = true
+					a = e.refine(v, at, fr, k, a)
+					delete(e.busy, k2)
+				}
+			}
 			return a
 		}
 	}
-	key := busyKey{v, blk, fr, k}
-	if e.busy[key] {
-		return TopAV(k)
+	// every cycle of pure SSA values passes through a Phi (cut by its assumption);
+	// cycles through memory, calls and parameters are cut here
+	switch v.(type) {
+	case *ssa.BinOp, *ssa.Convert, *ssa.ChangeType:
+	default:
+		key := busyKey{v, blk, fr, k}
+		if e.busy[key] {
+			return TopAV(k)
+		}
+		e.busy[key] = true
+		defer delete(e.busy, key)
 	}
-	e.busy[key] = true
-	defer delete(e.busy, key)
 
 	e.depth++
 	a := e.structural(v, at, fr, k)
@@ -1346,6 +1361,9 @@ func (e *Bounds) load(x *ssa.UnOp, fr *frame, k Kind) AV {
 		return r
 	case *ssa.FieldAddr:
 		if f := fieldVar(a.X.Type(), a.Field); f != nil {
+			if av, ok := e.fieldAt(f, a.X, x, fr, k); ok {
+				return av
+			}
 			return e.field(f, k)
 		}
 	case *ssa.Global:
@@ -1699,6 +1717,30 @@ func (e *Bounds) model(name string, c *ssa.Call, fr *frame, k Kind) (AV, bool) {
 		if k == KLen {
 			return TopAV(KLen), true
 		}
+	case "strings.Split", "strings.SplitAfter", "strings.SplitN", "strings.SplitAfterN":
+		// with a non-empty separator the result has at least one element (the whole string)
+		if k == KLen {
+			r := TopAV(KLen)
+			sep := e.eval(args[1], c, fr, KLen)
+			nonEmptySep := !sep.Bot && sep.Lo >= 1
+			if len(args) == 3 {
+				n := e.eval(args[2], c, fr, KInt)
+				if n.Bot {
+					return n, true
+				}
+				if n.Lo >= 1 {
+					r.Hi = math.Min(r.Hi, n.Hi)
+					if nonEmptySep {
+						r.Lo = 1
+					}
+				} else if n.Hi < 0 && nonEmptySep {
+					r.Lo = 1
+				}
+			} else if nonEmptySep {
+				r.Lo = 1
+			}
+			return r, true
+		}
 	case "github.com/mithrandie/go-text.Width", "github.com/mithrandie/go-text.ByteSize", "github.com/mithrandie/go-text.RuneWidth", "github.com/mithrandie/go-text.RuneByteSize":
 		if k == KInt {
 			return AV{Lo: 0, Hi: LenMax}, true
@@ -1972,10 +2014,35 @@ func (e *Bounds) field(f *types.Var, k Kind) AV {
 			e.Notes["zero value of "+owner.Obj().Name()+"."+f.Name()+": allocation at "+e.P.InstrPos(al)+" leaves the field unset"] = true
 		}
 	}
+	storeFns := map[*ssa.Function]bool{}
+	var fnOrder []*ssa.Function
+	for _, st := range stores {
+		if !storeFns[st.Parent()] {
+			storeFns[st.Parent()] = true
+			fnOrder = append(fnOrder, st.Parent())
+		}
+	}
+	// what other functions observe is the field's value when a storing function
+	// returns (a raw store followed by a clamp in the same function counts clamped)
 	evalStores := func() AV {
 		r := base
-		for _, st := range stores {
-			r = r.Join(e.evalUp(st.Val, st, 0, k))
+		for _, fn := range fnOrder {
+			exits := 0
+			for _, ret := range Returns(fn) {
+				if ret.Block() == fn.Recover && !mayRecover(fn) {
+					continue
+				}
+				exits++
+				av, _ := e.fieldAt(f, nil, ret, &frame{fn: nil, up: 0}, k)
+				r = r.Join(av)
+			}
+			if exits == 0 {
+				for _, st := range stores {
+					if st.Parent() == fn {
+						r = r.Join(e.evalUp(st.Val, st, 0, k))
+					}
+				}
+			}
 			if r.IsTop() {
 				break
 			}
@@ -2619,4 +2686,134 @@ func (e *Bounds) clampedBySize(v ssa.Value, use ssa.Instruction, up int) bool {
 		}
 	}
 	return false
+}
+
+// ---------------------------------------------------------------------------
+// path-sensitive reaching stores of a struct field inside one function
+
+// fieldAt returns the abstract value of field f (of the object `base`, or of
+// any object when base is nil) just before instruction `at`, joined over the
+// stores of the enclosing function that reach `at`. Each stored value is
+// refined by the branch conditions on re-loads of the same field that lie on
+// the path from the store to `at` (`x.f = raw; if x.f < 0 { x.f = 0 }`).
+// ok=false when some path reaches the function entry without a store.
+func (e *Bounds) fieldAt(f *types.Var, base ssa.Value, at ssa.Instruction, fr *frame, k Kind) (AV, bool) {
+	type pf struct {
+		fact Fact
+		load *ssa.UnOp
+	}
+	isField := func(addr ssa.Value) bool {
+		fa, ok := addr.(*ssa.FieldAddr)
+		if !ok || fieldVar(fa.X.Type(), fa.Field) != f {
+			return false
+		}
+		return base == nil || SameVal(fa.X, base)
+	}
+	fieldLoadIn := func(cond ssa.Value, blk *ssa.BasicBlock) *ssa.UnOp {
+		b, ok := cond.(*ssa.BinOp)
+		if !ok {
+			return nil
+		}
+		for _, side := range []ssa.Value{b.X, b.Y} {
+			if u, ok := side.(*ssa.UnOp); ok && u.Op == token.MUL && u.Block() == blk && isField(u.X) {
+				return u
+			}
+		}
+		return nil
+	}
+	factsIn := map[*ssa.BasicBlock][]pf{}
+	seen := map[*ssa.BasicBlock]bool{}
+	found := map[*ssa.Store][]pf{}
+	complete := true
+	type item struct {
+		blk  *ssa.BasicBlock
+		from int
+	}
+	intersect := func(a, b []pf) []pf {
+		var out []pf
+		for _, x := range a {
+			for _, y := range b {
+				if x.fact.If == y.fact.If && x.fact.Neg == y.fact.Neg {
+					out = append(out, x)
+					break
+				}
+			}
+		}
+		return out
+	}
+	startBlk := at.Block()
+	work := []item{{startBlk, InstrIndex(at) - 1}}
+	factsIn[startBlk] = nil
+	steps := 0
+	for len(work) > 0 {
+		it := work[len(work)-1]
+		work = work[:len(work)-1]
+		steps++
+		if steps > 400 {
+			return TopAV(k), false
+		}
+		cur := factsIn[it.blk]
+		stopped := false
+		for i := it.from; i >= 0; i-- {
+			st, ok := it.blk.Instrs[i].(*ssa.Store)
+			if !ok || !isField(st.Addr) {
+				continue
+			}
+			// facts whose load precedes the store in this block speak about the old value
+			var valid []pf
+			for _, x := range cur {
+				if x.load.Block() == it.blk && InstrIndex(x.load) < i {
+					continue
+				}
+				valid = append(valid, x)
+			}
+			if old, dup := found[st]; dup {
+				valid = intersect(old, valid)
+			}
+			found[st] = valid
+			stopped = true
+			break
+		}
+		if stopped {
+			continue
+		}
+		if len(it.blk.Preds) == 0 {
+			complete = false
+			continue
+		}
+		for _, p := range it.blk.Preds {
+			next := append([]pf{}, cur...)
+			if iff, ok := p.Instrs[len(p.Instrs)-1].(*ssa.If); ok && len(p.Succs) == 2 && p.Succs[0] != p.Succs[1] {
+				if ld := fieldLoadIn(iff.Cond, p); ld != nil {
+					next = append(next, pf{Fact{Cond: iff.Cond, Neg: p.Succs[1] == it.blk, If: iff}, ld})
+				}
+			}
+			if seen[p] && !(p == startBlk && it.blk != startBlk && false) {
+				merged := intersect(factsIn[p], next)
+				if len(merged) == len(factsIn[p]) {
+					continue
+				}
+				factsIn[p] = merged
+			} else {
+				seen[p] = true
+				factsIn[p] = next
+			}
+			work = append(work, item{p, len(p.Instrs) - 1})
+		}
+	}
+	if len(found) == 0 {
+		return BotAV(), complete
+	}
+	r := BotAV()
+	for st, fs := range found {
+		a := e.eval(st.Val, st, fr, k)
+		for _, x := range fs {
+			if a.Bot {
+				break
+			}
+			a = e.applyFact(x.fact, x.load, fr, k, a)
+		}
+		r = r.Join(a)
+	}
+	return r, complete
 }
